@@ -364,6 +364,58 @@ theorem run_bound_init (p : Params) (hp : 0 < p.period) (calls : List Nat) (h : 
     have := run_bound p hp rest (call p TtlMap.init dt).1 ([] ++ [(call p TtlMap.init dt).2]) h h1 h2
     simpa [run] using this
 
+/-! ### remark: at one and the same instant the limiter admits without bound -/
+
+theorem logOf_after_call (p : Params) (hp : 0 < p.period) (t : TtlMap) (dt : Nat) :
+    ∀ a ∈ logOf (call p t dt).1 key, a ≤ t.now + dt ∧
+      ((kept (t.step (.adv dt)).1 key p.period (t.now + dt)) = [] → a = t.now + dt) := by
+  rw [call_eq]
+  have hm := sliceIncr_m_same (t.step (.adv dt)).1 key p.period (t.now + dt) (p.limit + 1) p.period hp
+  have hn : (sliceIncr (t.step (.adv dt)).1 key p.period (t.now + dt) (p.limit + 1) (some p.period)).1.now = t.now + dt := by
+    rw [sliceIncr_now]; rfl
+  have hf := TtlMap.find_live hm (by simp [Entry.live, hn, TtlMap.adv_now, hp])
+  intro a ha
+  simp only [] at ha
+  rw [logOf_some hf] at ha
+  have hk : ∀ a ∈ kept (t.step (.adv dt)).1 key p.period (t.now + dt), a < t.now + dt := by
+    intro a ha
+    simp only [kept, List.mem_filter, inWindow] at ha
+    have := ha.2
+    simp at this; omega
+  split at ha
+  · rcases List.mem_append.mp ha with ha | ha
+    · exact ⟨by have := hk a ha; omega, fun h => by rw [h] at ha; simp at ha⟩
+    · simp at ha; exact ⟨by omega, fun _ => ha⟩
+  · exact ⟨by have := hk a ha; omega, fun h => by rw [h] at ha; simp at ha⟩
+
+theorem same_instant_runs (p : Params) (hl : 1 ≤ p.limit) (hp : 0 < p.period) :
+    ∀ (n : Nat) (t : TtlMap), (∀ a ∈ logOf t key, t.now ≤ a) →
+      ∀ e ∈ run p t (List.replicate n 0), e.dec = .run ∧ e.ts = t.now := by
+  intro n
+  induction n with
+  | zero => intro t _ e he; simp [run] at he
+  | succ n ih =>
+    intro t hinv e he
+    have hk : kept (t.step (.adv 0)).1 key p.period (t.now + 0) = [] := by
+      unfold kept
+      apply filter_eq_nil_of
+      intro a ha
+      have : t.now ≤ a := hinv a ha
+      simp [inWindow]; omega
+    have hc := call_eq p t 0
+    rw [hk] at hc
+    simp only [List.replicate_succ, run] at he
+    rcases List.mem_cons.mp he with rfl | he
+    · rw [hc]; simp; omega
+    · have hnow : (call p t 0).1.now = t.now := by rw [hc, sliceIncr_now]; rfl
+      have := ih (call p t 0).1 (by
+        intro a ha
+        rw [hnow]
+        have := (logOf_after_call p hp t 0 a ha).2 hk
+        omega) e he
+      rw [hnow] at this
+      exact this
+
 end SlideRate
 
 end CashewsVerif.Decor
